@@ -74,6 +74,22 @@ def variants(quick: bool) -> List[Variant]:
             L += _enum("", "X", "w0", "Z0")
         vis = [k for k in range(4) if combo[k] == "before"]
         out.append(Variant("simple:" + ",".join(c[0] for c in combo), "\n".join(L) + "\n", (("A", "B", "C"), "f"), f"w{max(vis)}" if vis else None, use_line))
+    # ---- a use BEFORE the shadowing definition in the same open scope, and another one after it (a lookup must
+    # not be remembered while the scope is still open); the first use may also sit in a child scope
+    for child in (False, True):
+        L = ["proto p"] + _enum("", "X", "w0", "Z0") + ["message A {"]
+        if child:
+            L += [I + "message B {", I * 2 + "X f = 1", I + "}"]
+        else:
+            L += [I + "X f = 1"]
+        first_line = len(L) - (1 if child else 0)
+        L += _enum(I, "X", "w1", "Z1") + [I + "X g = 2", "}"]
+        for fld, path, exp, ln in (("f", ("A", "B") if child else ("A",), "w0", first_line), ("g", ("A",), "w1", len(L) - 1)):
+            out.append(Variant(f"use-shadow-use:{'child' if child else 'direct'}:{fld}", "\n".join(L) + "\n", (path, fld), exp, ln))
+    # the same for a dotted path whose head is re-declared later in the open scope
+    L = ["proto p", "message T {"] + _enum(I, "K", "w0", "Z0") + ["}", "message A {", I + "T.K f = 1", I + "message T {"] + _enum(I * 2, "K", "w1", "Z1") + [I + "}", I + "T.K g = 2", "}"]
+    out.append(Variant("use-shadow-use:dotted:f", "\n".join(L) + "\n", (("A",), "f"), "w0", 0))
+    out.append(Variant("use-shadow-use:dotted:g", "\n".join(L) + "\n", (("A",), "g"), "w1", 0))
     # ---- file-scope alias instead of enum, use at depth 1 and 2
     for lvl1 in ("none", "before"):
         L = ["proto p", "type X = {I:w0}[2]", "message A {"]
